@@ -64,7 +64,10 @@ def fully_connect(
         .sample(num_pre, replace=True)
         .index.to_numpy()
     )
-    global_post_indices = global_post_indices.reshape((-1, num_pre), order="F").ravel()
+    # `global_post_indices` holds `num_pre` samples for each post cell (cell by cell).
+    # Order them such that the synapses of the first pre cell onto every post cell
+    # come first, then those of the second pre cell, and so on (as `pre_rows` below).
+    global_post_indices = global_post_indices.reshape((-1, num_pre)).ravel(order="F")
     post_rows = post_cell_view.nodes.loc[global_post_indices]
 
     # Pre-synapse is at the zero-eth branch and zero-eth compartment.
